@@ -120,6 +120,8 @@ def mul : Nat := 510
 -- more names
 def S.static_text : Nat := 305
 def S.into_raw : Nat := 306
+def range : Nat := 21
+def find : Nat := 118
 def get : Nat := 229
 def checked_sub : Nat := 230
 def token : Nat := 231
@@ -190,6 +192,7 @@ inductive Pat where
   | lit (n : Nat)
   | ctor (c : Nat) (args : List Pat)
   | strct (fields : List (Nat × Pat))                  -- `T { f: p, g, .. }`: the listed fields
+  | alt (ps : List Pat)                                -- `p | q` (alternatives that bind nothing)
   deriving Inhabited
 
 mutual
@@ -218,6 +221,7 @@ inductive Expr where
   | mac (m : Nat) (args : List Expr)
   | closure (params : List Pat) (body : Expr)
   | mkStrct (fields : List (Nat × Expr))               -- struct literal `T { f: e, … }`
+  | range (lo hi : Expr)                               -- `lo..hi` as a value (only `.find(|x| …)` is given a meaning)
   | unknown
 inductive Stmt where
   | letS (p : Pat) (e : Expr)
@@ -300,6 +304,12 @@ def matchPat : Pat → Val → Env → Option Env
   | .ctor _ _, _, _ => none
   | .strct fps, .strct fs, ρ => matchFields fps fs ρ
   | .strct _, _, _ => none
+  | .alt ps, v, ρ => matchAlt ps v ρ
+def matchAlt : List Pat → Val → Env → Option Env
+  | [], _, _ => none
+  | p :: ps, v, ρ => match matchPat p v ρ with
+    | some ρ' => some ρ'
+    | none => matchAlt ps v ρ
 def matchFields : List (Nat × Pat) → List (Nat × Val) → Env → Option Env
   | [], _, ρ => some ρ
   | (f, p) :: fps, fs, ρ => match recGet fs f with
@@ -382,6 +392,13 @@ def eval (S : Sem) : Nat → Env → Expr → Res
     | .unknown => .stuck
     | .brk => .brk ρ
     | .closure _ _ => .stuck
+    | .range lo hi => match eval S fuel ρ lo with
+      | .ok (.nat l) ρ' => (match eval S fuel ρ' hi with
+        | .ok (.nat h) ρ'' => .ok (.ctor N.range [.nat l, .nat h]) ρ''
+        | .ok _ _ => .stuck
+        | r => r)
+      | .ok _ _ => .stuck
+      | r => r
     | .mkStrct fes => match evalL S fuel ρ (fes.map (·.2)) with
       | .ok vs ρ' => .ok (.strct ((fes.map (·.1)).zip vs)) ρ'
       | .ret v ρ' => .ret v ρ' | .brk ρ' => .brk ρ' | .panic ρp => .panic ρp | .stuck => .stuck
@@ -577,6 +594,18 @@ def evalFor (S : Sem) : Nat → Env → Nat → Nat → Nat → Expr → Res
     | .brk ρ' => .ok .unit ρ'
     | r => r
 
+/-- `(l .. l+k).find(|p| body)`: the first index for which the closure answers `true` -/
+def evalFind (S : Sem) : Nat → Env → Pat → Expr → Nat → Nat → Res
+  | 0, _, _, _, _, _ => .stuck
+  | _ + 1, ρ, _, _, _, 0 => .ok vNone ρ
+  | fuel + 1, ρ, p, body, i, k + 1 => match matchPat p (.nat i) ρ with
+    | some ρ' => (match eval S fuel ρ' body with
+      | .ok (.bool true) ρ'' => .ok (vSome (.nat i)) ρ''
+      | .ok (.bool false) ρ'' => evalFind S fuel ρ'' p body (i + 1) k
+      | .ok _ _ => .stuck
+      | r => r)
+    | none => .stuck
+
 /-- a method call: the `Option` combinators with closure arguments and the ownership no-ops are built in,
     everything else is the `Sem`'s; a mutated receiver is written back when it is a place -/
 def evalMeth (S : Sem) : Nat → Env → Expr → Val → Nat → List Expr → Res
@@ -607,6 +636,9 @@ def evalMeth (S : Sem) : Nat → Env → Expr → Val → Nat → List Expr → 
         (match eval S fuel ρ d with
          | .ok dv ρ' => if c == N.Some then (match vs with | [v] => .ok v ρ' | _ => .stuck) else if c == N.None then .ok dv ρ' else .stuck
          | r => r)
+      | _, _ => .stuck)
+    else if m == N.find then (match rv, args with
+      | .ctor c [.nat l, .nat h], [.closure [p] body] => if c == N.range then evalFind S fuel ρ p body l (h - l) else .stuck
       | _, _ => .stuck)
     else if m == N.map || m == N.and_then then (match rv, args with
       | .ctor c vs, [.closure [p] body] =>
